@@ -5,7 +5,7 @@
 From V Require Import C11.Model.
 From stdpp Require Import gmap.
 From Coq Require Import ZArith List.
-From V Require Import Base.Codec Base.Res Sched.LedgerModel Sched.StmtModel C04.Model C04.Codec.
+From V Require Import Base.Codec Base.Res Sched.LedgerModel Sched.StmtModel C04.Model C04.Codec C04.Laws.
 Import ListNotations.
 Open Scope Z_scope.
 
@@ -13,5 +13,9 @@ Definition entry (sel : Z) (toks : list Z) : list Z :=
   match sel with
   | 1 => match run_dec dCase toks with Some c => run_case c | None => bad_input end
   | 2 => match run_dec dVoteCase toks with Some c => run_vote c | None => bad_input end
+  | 101 => match run_dec dLawIn toks with Some l => eBool (law_eligible l) | None => bad_input end
+  | 102 => match run_dec dLawIn toks with Some l => eBool (law_placed l) | None => bad_input end
+  | 103 => match run_dec dLawIn toks with Some l => eBool (law_plugins l) | None => bad_input end
+  | 104 => match run_dec dLawIn toks with Some l => eBool (law_plugins_all l) | None => bad_input end
   | _ => bad_input
   end.
